@@ -19,3 +19,6 @@ CFG = {'harness': 'det',
  'note': 'model = spec by C06_trg_exact, so any observation difference between implementation and model is a concrete '
          'input on which the implementation departs from the documented layout',
  'model': 'det'}
+
+# translator plugins this property needs besides the board tables of tools/gen.py (none)
+CFG["gen_plugins"] = []
